@@ -25,7 +25,7 @@ SHIMS = {
 PROPS = {
     'C03': dict(
         title='origin map',
-        units=['pt', 'arms', 'rtmu', 'glue'],
+        units=['pt', 'arms', 'rtmu', 'glue', 'derive', 'getstr'],
         shims=['A-btree', 'A-str', 'A-path/fs', 'A-arith', 'A-glue'],
         design='DESIGN.md 3/C03',
         technique='contract-based deductive verification (Verus) of the real PreprocessedText/Range code extracted from /repo on every run',
@@ -52,7 +52,7 @@ PROPS['C20'] = dict(
 PROPS['C09'] = dict(
     title='bounded recursion',
     units=['depth', 'wrap', 'rtmu', 'arms'],
-    shims=[],
+    shims=['A-pplex'],
     design='DESIGN.md 3/C09',
     technique='contract-based deductive verification (Verus) of the mechanically sliced recursion skeleton (guards + recursive calls with real argument expressions) of the real functions, with a termination measure',
     level_text='Deductive proof, for all depths and all interleavings of include and macro recursion, on the recursion skeleton cut from the real preprocess / preprocess_inner / preprocess_str / resolve_text_macro_usage: a lexicographic measure over both counters decreases at every recursive call (all cycles terminate), each guard returns ExceedRecursiveLimit exactly when its counter exceeds 64, and a counter never exceeds the true nesting depth, so chains of legal depth never trip a guard.',
@@ -61,7 +61,7 @@ PROPS['C09'] = dict(
 )
 PROPS['C18'] = dict(
     title='strip_comments',
-    units=['depth', 'wrap', 'arms', 'rtmu', 'split'],
+    units=['depth', 'wrap', 'arms', 'rtmu', 'split', 'derive', 'getstr'],
     shims=['A-glue', 'A-pplex'],
     design='DESIGN.md 3/C18',
     technique='contract-based deductive verification (Verus): flag forwarding on the recursion skeleton and at the entry wrappers; arm-guard obligations on the lifted match arms',
@@ -84,7 +84,7 @@ PROPS['C16'] = dict(
 ARMS_NOTE = 'The arms of preprocess_str are verified one by one (rule R-arm); the loop around them is verified in unit glue with the arm bodies outlined (A-glue): it establishes every arm precondition from one grammar invariant, keeps the text well formed, starts from the stated initial state and returns the accumulated text and table; an arm the contracts do not know makes the unit undecided. Callees carry contracts proved in other units (push/merge: pt; Locate::str: getstr; try_into fold: derive) or assumed on their real signature (preprocess_inner, resolve_text_macro_usage, identifier). Grammar invariants (each node has a contiguous leaf inside s, identifiers present) are preconditions.'
 PROPS['C04'] = dict(
     title='conditional compilation',
-    units=['arms', 'pphelp', 'glue'],
+    units=['arms', 'pphelp', 'glue', 'derive', 'getstr'],
     shims=['A-glue', 'A-hashmap', 'A-str', 'A-node', 'A-pplex'],
     design='DESIGN.md 3/C04',
     technique='contract-based deductive verification (Verus) of the verbatim IfdefDirective / IfndefDirective arms against an IEEE 22.6 selection spec function, loop invariant over the `elsif chain',
@@ -94,7 +94,7 @@ PROPS['C04'] = dict(
 )
 PROPS['C05'] = dict(
     title='macro expansion',
-    units=['arms', 'depth', 'split', 'rtmu', 'pphelp'],
+    units=['arms', 'depth', 'split', 'rtmu', 'pphelp', 'derive', 'getstr'],
     shims=['A-glue', 'A-hashmap', 'A-str', 'A-arith', 'A-pplex'],
     design='DESIGN.md 3/C05',
     technique='contract-based deductive verification (Verus) of the verbatim TextMacroUsage arm and of the actual/formal binding block of resolve_text_macro_usage',
@@ -104,7 +104,7 @@ PROPS['C05'] = dict(
 )
 PROPS['C06'] = dict(
     title='pass-through',
-    units=['arms', 'pt', 'glue', 'loc'],
+    units=['arms', 'pt', 'glue', 'loc', 'derive', 'getstr'],
     shims=['A-glue', 'A-str', 'A-pplex'],
     design='DESIGN.md 3/C06',
     technique='contract-based deductive verification (Verus) of the directive-free emission arms (copy exactly the bytes of their own leaf, identity origin) plus once-only obligations',
@@ -114,7 +114,7 @@ PROPS['C06'] = dict(
 )
 PROPS['C10'] = dict(
     title='include',
-    units=['arms', 'depth', 'wrap', 'rtmu', 'glue', 'prologue'],
+    units=['arms', 'depth', 'wrap', 'rtmu', 'glue', 'prologue', 'derive', 'getstr'],
     shims=['A-glue', 'A-path/fs', 'A-hashmap', 'A-pplex'],
     design='DESIGN.md 3/C10',
     technique='contract-based deductive verification (Verus) of the verbatim IncludeCompilerDirective arm incl. the include-path search loop; nested preprocessing as an uninterpreted function of named parameters',
@@ -124,7 +124,7 @@ PROPS['C10'] = dict(
 )
 PROPS['C11'] = dict(
     title='define table',
-    units=['arms', 'prologue', 'rtmu', 'wrap', 'depth', 'glue', 'pphelp'],
+    units=['arms', 'prologue', 'rtmu', 'wrap', 'depth', 'glue', 'pphelp', 'derive', 'getstr'],
     shims=['A-glue', 'A-hashmap', 'A-str', 'A-pplex'],
     design='DESIGN.md 3/C11',
     technique='contract-based deductive verification (Verus) of the verbatim `define / `undef / `undefineall arms and of the table adoption at include and expansion',
@@ -218,7 +218,8 @@ PROPS['C18']['engines'] = [dict(module='gvc.engine', args=dict(analyses=('pptota
 PROPS['C05']['engines'] = [dict(module='vx.boundeng'), dict(module='gvc.engine', args=dict(analyses=('shadow', 'kwsites', 'assumed')))]
 PROPS['C11']['engines'] = [dict(module='gvc.engine', args=dict(analyses=('shadow', 'kwsites', 'assumed')))]
 PROPS['C10']['engines'] = [dict(module='gvc.engine', args=dict(analyses=('assumed',)))]
-PROPS['C04']['engines'] = [dict(module='gvc.engine', args=dict(analyses=('frame', 'assumed', 'kwsites'))), REPLAY]
+PROPS['C09']['engines'] = [dict(module='gvc.engine', args=dict(analyses=('assumed',)))]
+PROPS['C04']['engines'] = [dict(module='gvc.engine', args=dict(analyses=('frame', 'assumed', 'kwsites', 'pptotal'))), REPLAY]
 PROPS['C06']['engines'] = [dict(module='gvc.engine', args=dict(analyses=('pptotal', 'faithful', 'shadow', 'assumed'))), dict(module='vx.boundeng'), REPLAY]
 
 NOT_APPLICABLE = {
